@@ -51,6 +51,8 @@ type conf struct {
 	// takes filter0Ms for caller 0; caller i starts startMs[i] after the beginning
 	filter0Ms int
 	startMs   []int
+	// every caller makes a one-way call right before its two-way call (nothing comes back for it; its id obeys the same rules)
+	onewayFirst bool
 	// postFilters legacy post-client filters that observe the call and return nil
 	postFilters int
 	// extra "split": the reply to caller 0 carries, as payload, a complete response frame that names caller 1's
@@ -126,6 +128,12 @@ func scenario(c conf) *vm.Scenario {
 				if i < len(c.startMs) && c.startMs[i] > 0 {
 					vm.Sleep(int64(c.startMs[i]) * 1e6)
 				}
+				if c.onewayFirst {
+					var r1 requestf.ResponsePacket
+					if err := sps[i%len(sps)].TarsInvoke(context.Background(), 1, "note", []byte{0xB0 + byte(i)}, nil, nil, &r1); err != nil {
+						vm.Log("caller %d error one-way %v", i, err)
+					}
+				}
 				for round := 0; round < rounds; round++ {
 					var resp requestf.ResponsePacket
 					payload := []byte{0xA0 + byte(i), byte(i)}
@@ -199,6 +207,9 @@ func server(c conf, ln vnet.Listener, start int64) {
 							return
 						}
 						vm.Log("wire id=%d payload=%x conn=%s", q.ID, q.Buffer, conn.ID())
+						if q.PacketType == 1 {
+							continue // one-way: nothing to answer
+						}
 						vm.Send(in, inReq{conn, q})
 					}
 				}
@@ -578,6 +589,9 @@ func main() {
 	// caller 0 draws its id, spends 50 ms in a client filter while two others get in flight, is refused; a fourth call follows
 	add(conf{name: "slow client filter, refused call, ObjQueueMax=1", callers: 4, timeout: 300, quiet: true, objMax: 1, eachMs: 100, filter0Ms: 50, startMs: []int{0, 10, 40, 115}}, 1, false)
 	add(conf{name: "slow client filter, refused call, ObjQueueMax=2", callers: 5, timeout: 300, quiet: true, objMax: 2, eachMs: 100, filter0Ms: 50, startMs: []int{0, 10, 20, 40, 125}}, 0, false)
+	// one-way calls mixed in: their ids are drawn like all others (never 0, distinct among outstanding calls)
+	add(conf{name: "2 callers, a one-way call each first", callers: 2, timeout: 300, quiet: true, allOrders: true, onewayFirst: true}, 1, false)
+	add(conf{name: "3 callers with a proxy object each, a one-way call each first", callers: 3, timeout: 300, quiet: true, ownProxies: true, onewayFirst: true}, 0, false)
 	// observing post-client filters (legacy registration) must not change the outcome of a call that timed out
 	for _, d := range []string{"before", "after"} {
 		for _, k := range []int{1, 2} {
